@@ -4,6 +4,7 @@ import importlib, json, os, sys
 sys.path.insert(0, os.path.dirname(os.path.abspath(__file__)))
 import py2lean
 import structure
+import tracegen
 
 MODULES = ["targets_leaves", "targets_comb", "targets_bisect", "targets_misc", "targets_dist", "targets_params"]
 
@@ -22,6 +23,13 @@ def main(repo="/repo", outdir=None):
         report[mod.NAME] = {"errors": res["errors"], "changed": old != res["text"], "targets": [t.name for t in mod.TARGETS]}
     importlib.reload(structure)
     for name, res in structure.generate(repo).items():  # class table (data) + the wrapper's two inner checks
+        path = os.path.join(outdir, name + ".lean")
+        old = open(path).read() if os.path.exists(path) else None
+        if old != res["text"]:
+            open(path, "w").write(res["text"])
+        report[name] = {"errors": res["errors"], "changed": old != res["text"], "targets": res["targets"]}
+    importlib.reload(tracegen)
+    for name, res in tracegen.generate(repo).items():  # control-flow skeletons + field table (C14)
         path = os.path.join(outdir, name + ".lean")
         old = open(path).read() if os.path.exists(path) else None
         if old != res["text"]:
